@@ -958,21 +958,25 @@ func (s *sharedEntryAttributes) validateRange(resultChan chan<- *types.Validatio
 // validateLeafListMinMaxAttributes validates the Min-, and Max-Elements attribute of the Entry if it is a Leaflists.
 func (s *sharedEntryAttributes) validateLeafListMinMaxAttributes(resultChan chan<- *types.ValidationResultEntry) {
 	if schema := s.schema.GetLeaflist(); schema != nil {
-		if schema.MinElements > 0 {
-			if lv := s.leafVariants.GetHighestPrecedence(false, true); lv != nil {
-				tv, err := lv.Update.Value()
-				if err != nil {
-					resultChan <- types.NewValidationResultEntry(lv.Owner(), fmt.Errorf("validating LeafList Min Attribute: %v", err), types.ValidationResultEntryTypeError)
+		// min-elements 0 and max-elements 0 (not set) or unbounded impose nothing
+		if schema.GetMinElements() == 0 && schema.GetMaxElements() == 0 {
+			return
+		}
+		if lv := s.leafVariants.GetHighestPrecedence(false, true); lv != nil {
+			tv, err := lv.Update.Value()
+			if err != nil {
+				resultChan <- types.NewValidationResultEntry(lv.Owner(), fmt.Errorf("validating LeafList Min/Max Attribute: %v", err), types.ValidationResultEntryTypeError)
+				return
+			}
+			if val := tv.GetLeaflistVal(); val != nil {
+				numElements := uint64(len(val.GetElement()))
+				// check minelements if set
+				if schema.GetMinElements() > 0 && numElements < schema.GetMinElements() {
+					resultChan <- types.NewValidationResultEntry(lv.Owner(), fmt.Errorf("leaflist %s defines %d min-elements but only %d elements are present", s.Path().String(), schema.GetMinElements(), numElements), types.ValidationResultEntryTypeError)
 				}
-				if val := tv.GetLeaflistVal(); val != nil {
-					// check minelements if set
-					if schema.MinElements > 0 && len(val.GetElement()) < int(schema.GetMinElements()) {
-						resultChan <- types.NewValidationResultEntry(lv.Owner(), fmt.Errorf("leaflist %s defines %d min-elements but only %d elements are present", s.Path().String(), schema.MinElements, len(val.GetElement())), types.ValidationResultEntryTypeError)
-					}
-					// check maxelements if set
-					if len(val.GetElement()) > int(schema.GetMaxElements()) {
-						resultChan <- types.NewValidationResultEntry(lv.Owner(), fmt.Errorf("leaflist %s defines %d max-elements but %d elements are present", s.Path().String(), schema.GetMaxElements(), len(val.GetElement())), types.ValidationResultEntryTypeError)
-					}
+				// check maxelements if set (independent of min-elements)
+				if schema.GetMaxElements() > 0 && numElements > schema.GetMaxElements() {
+					resultChan <- types.NewValidationResultEntry(lv.Owner(), fmt.Errorf("leaflist %s defines %d max-elements but %d elements are present", s.Path().String(), schema.GetMaxElements(), numElements), types.ValidationResultEntryTypeError)
 				}
 			}
 		}
